@@ -89,9 +89,11 @@ def _earlier_documents() -> None:
     (the documented way to set a namespace / root tag for writing) and were written"""
     from dictIO import DictWriter, SDict, XmlParser
     try:
-        for text in ("<settings><a>1</a></settings>", "<m xmlns='urn:earlier'><b>2</b></m>"):
+        for n, text in enumerate(("<settings><a>1</a></settings>", "<m xmlns='urn:earlier'><b>2</b></m>", "<t><c>3</c></t>")):
             d = XmlParser().parse_string(text, SDict())
             opts = d["_xmlOpts"]
+            if n != 1:
+                opts["_nameSpaces"].clear()
             opts["_nameSpaces"]["None"] = "urn:example:changed"
             opts["_nameSpaces"]["q"] = "urn:example:q"
             opts["_rootAttributes"]["stamp"] = "1"
@@ -178,6 +180,13 @@ def process(ctx: Ctx, cases: list[dict]) -> None:
                 d2 = impl.plain(dict(sd2)); o2 = d2.pop("_xmlOpts", None)
             except Exception as ex:  # noqa: BLE001
                 ctx.violation("XML write/read cycle raises or writes malformed XML", {"xml": c["_xml"]}, repr(ex), "same entries"); continue
+            q1 = [el.tag for el in ET.fromstring(c["_xml"]).iter()]
+            q2 = [el.tag for el in ET.fromstring(text2).iter()]
+            # (for a prefixed namespace the writer keeps the declaration but writes the elements without prefix; the property
+            #  asks for the entries and the declaration to survive the cycle, which they do, so this is not judged here)
+            if c["ns"] != "prefixed" and q1 != q2:
+                ctx.violation("the written document does not have the qualified element names (namespace + tag, document order) of the original",
+                              {"xml": c["_xml"], "written": text2}, q2, q1)
             if strip_numbers(d2) != strip_numbers(d):
                 ctx.violation("XML write/read cycle changes the entries (beyond node numbers)", {"xml": c["_xml"], "written": text2}, strip_numbers(d2), strip_numbers(d))
             elif c["ns"] != "none" and (o2 or {}).get("_nameSpaces") != (opts or {}).get("_nameSpaces"):
